@@ -139,6 +139,37 @@ def ideallat_case(r):
     return ops
 
 
+def cadence_case(r, bw=None, dt=None, secs=None):
+    """A sender with a low ceiling that steps and flushes every few milliseconds (an application polling in a tight
+    loop) with more data queued than the ceiling lets through; the peer answers every 50 ms. No credit override:
+    every byte of flush credit comes from step(). Rounding in the per-step refill shows here and nowhere else."""
+    bw = bw or r.choice([1472, 1750, 1750, 2500, 3300, 10100])
+    dt = dt or r.choice([1, 1, 1, 2, 3, 7])
+    secs = secs or r.choice([3, 4, 6])
+    c = pick_cfg(r)
+    c["W"] = 256                # windows as small as the load allows: the model's cost per step grows with them
+    c["FW"] = 64
+    c["alloc"] = [10000000, 10000000]
+    c["ka"] = "-"
+    l0, l1 = hcnew_lines(c)
+    f0 = l0.split(); f0[10] = str(bw)
+    f1 = l1.split(); f1[10] = "1000000"
+    ops = ["seed %d" % r.randrange(U32), " ".join(f0), " ".join(f1)]
+    n = min(250, bw * (secs + 2) // 1000 + 8)
+    for i in range(n):
+        ops.append("send 0 %d 1 1000 %d" % (r.choice([0, 1]), i))
+    now = 0
+    nxt = 50
+    while now < secs * 1000:
+        now += dt
+        ops.append("step 0 %d" % now)
+        ops.append("flush 0")
+        if now >= nxt:
+            nxt += 50
+            ops += ["relay 0 1 0 0 0 1", "recv 1", "step 1 %d" % now, "flush 1", "relay 1 0 0 0 0 1"]
+    return ops
+
+
 def chanmix_case(r):
     """Two channels, Unreliable / Persistent / Reliable packets interleaved, heavy frame loss, a receive() after
     every relay: the receive window stalls behind a lost Reliable packet of one channel while the other channel
